@@ -12,10 +12,12 @@ import (
 )
 
 func init() {
-	register("C03", "Structural clauses of receiver containment, decided for every packet sequence because they hold on every path of the receive loop and the disk writer: each received entry passes the order validator and the hard-link validator (both checked) before it is forwarded to the writer, directly or through the replay stack; the validator has a fatal test for every lexical rejection class (unclean, absolute, '.', '..', '../' prefix) and rejects the orderings equal/greater and a foreign parent; a hard link whose source was not received is fatal; DATA for an unknown id is fatal; every filesystem call reachable from the disk writer is classified, and no symlink-following call is applied to a destination path outside a reasoned table; replacement decisions are Lstat-based. Does not decide races with concurrent modification of the destination nor symlinks in intermediate components.", runC03)
+	register("C03", "Structural clauses of receiver containment, decided for every packet sequence because they hold on every path of the receive loop and the disk writer: each received entry passes the order validator and the hard-link validator (both checked) before it is forwarded to the writer, directly or through the replay stack; the validator has a fatal test for every lexical rejection class (unclean, absolute, '.', '..', '../' prefix) and rejects the orderings equal/greater and a foreign parent; a hard link whose source was not received is fatal; DATA for an unknown id is fatal; every filesystem call reachable from the disk writer is classified, and no symlink-following call is applied to a destination path outside a reasoned table; replacement decisions are Lstat-based. The validator's open-directory stack is never re-sliced past its current length (shared with C12). Does not decide races with concurrent modification of the destination nor symlinks in intermediate components.", runC03)
 }
 
 func runC03(c *Ctx) {
+	// the open-directory stack is never cut past its length (shared with C12)
+	r12_5(c, "R03.10")
 	r03_1(c, "R03.1")
 	r03_2(c, "R03.2")
 	r03_3(c, "R03.3")
